@@ -22,6 +22,7 @@ NewSock(limit) ==
       abandons |-> 0,       \* accept calls given up (relaxes the strict call-order rule)
       routed   |-> <<>>,    \* keys of datagrams handed to a connection and not yet processed by it
       rstDue   |-> {},      \* refused SYNs that are owed a RESET: [remote, cid, seq]
+      everMatched |-> {},   \* SYNs (remote, connection id, sequence number) that were handed to an accept call
       lastSyn  |-> [remote |-> "", cid |-> -1, seq |-> -1] ]
 
 RemoveFirst(q, x) ==
@@ -67,6 +68,10 @@ SynMatched(s, key) ==
     [s EXCEPT !.synq = IF @ # <<>> /\ Head(@) = key THEN Tail(@) ELSE RemoveFirst(@, key),
               !.matched = Append(@, key)]
 SynClashCached(s) == [s EXCEPT !.synq = IF @ = <<>> THEN @ ELSE Tail(@)]
+\* "Each successful connect is matched by exactly one accepted stream": one SYN (a duplicate or retransmission is the
+\* same SYN) is handed out once, and the SYN of a live connection is not retained as a new request
+R_C13_PairOnceSyn(s, syn3) == syn3 \notin s.everMatched
+R_C13_NoPhantomRequest(s, key) == key \notin s.streams
 R_C13_BacklogBound(n, backlog) == n <= backlog
 R_C13_RefusedOnlyWhenFull(s, backlog) == Len(s.synq) >= backlog
 SynRefused(s) == [s EXCEPT !.rstDue = @ \cup {s.lastSyn}]
